@@ -587,6 +587,27 @@ class C02(Prop):
             if ln > 5 and rng.random() < 0.7:
                 b[4], b[5] = 0, rng.randint(0, 40)
             yield Case({"op": "tc_unpack", "raw": hx(bytes(b))}, "any", tag="random-octets")
+        # ---- cold start (core.cold_start_sample runs the cases named by cold_start_cases() as the first and only operation of
+        #      a fresh interpreter): one case per ENTRY PATH of the checksum, so that each of them is, once, the first thing a
+        #      process does with the package. A telecommand on which nothing was read (hist.read = []) whose views are then read
+        #      with calc_crc (crc16 looked at right after it) / to_space_packet().pack() / pack() FIRST; the decoder, the
+        #      standalone check and the CRC function on octets that were not made by the package. Emitted last: the stream of
+        #      the cases above is what it was. ----
+        a = rand_args(rng, 3)
+        old = dict(a, count=(a["count"] + 1) % 16384)
+        for first in ("calc_crc", "to_space_packet", "pack"):
+            yield Case({"op": "tc_pack", **a, "hist": {"from": old, "how": "new", "path": "tc", "read": [], "hold": False,
+                                                       "after": [first] + [v for v in TC_VIEW_NAMES if v != first]}},
+                       "valid", tag=f"cold-start:{first}-first")
+        body = spec_tc(rand_args(rng, 5))
+        raw = body + crc_ccitt(body).to_bytes(2, "big")
+        yield Case({"op": "tc_unpack", "raw": hx(raw)}, "valid", tag="cold-start:unpack-first")
+        yield Case({"op": "pus_crc_check", "raw": hx(raw)}, "valid", tag="cold-start:check_pus_crc-first")
+        yield Case({"op": "crc16", "raw": hx(body)}, "valid", tag="cold-start:crc-function-first")
+
+    def cold_start_cases(self):
+        """always in the cold-start sample: one case per entry path of the checksum (see the end of `cases`)"""
+        return [f"cold-start:{p}-first" for p in ("calc_crc", "to_space_packet", "pack", "unpack", "check_pus_crc", "crc-function")]
 
 
 PROP = C02()
